@@ -512,27 +512,29 @@ def _messages():
 
 
 def substructs():
-    """Explicit table: C++ sub-structure -> Python counterpart."""
+    """Explicit table: C++ sub-structure -> Python counterpart (thunks: a missing Python name affects one entry only)."""
     m, cfg, fc, sol, md, ts, defs = _messages()
     ct = cfg.ConfigType
-    cm = cfg._conf_gen.CONFIG_MAP
+
+    def cm(name):
+        return cfg._conf_gen.CONFIG_MAP[getattr(ct, name)]
     return {
-        'Timestamp': class_subject(ts.Timestamp, pack_kwargs={'return_buffer': True}),
-        'MessageHeader': class_subject(defs.MessageHeader),
-        'MeasurementDetails': class_subject(md.MeasurementDetails),
-        'SatelliteInfo': class_subject(sol.SatelliteInfo),
-        'DataVersion': adapter_subject('DataVersion', cfg._DataVersionConstruct, lambda: cfg.DataVersion(1, 2)),
-        'InterfaceID': adapter_subject('InterfaceID', cfg._InterfaceIDConstruct),
-        'InterfaceConfigSubmessage': adapter_subject('InterfaceConfigSubmessage', cfg._InterfaceConfigSubmessageConstruct),
-        'MessageRateResponseEntry': adapter_subject('RateResponseEntry', cfg._RateResponseEntryConstruct),
-        'Point3f': adapter_subject('DeviceLeverArmConfig (Point3F)', cm[ct.DEVICE_LEVER_ARM]),
-        'CoarseOrientation': adapter_subject('DeviceCourseOrientationConfig', cm[ct.DEVICE_COARSE_ORIENTATION]),
-        'VehicleDetails': adapter_subject('VehicleDetailsConfig', cm[ct.VEHICLE_DETAILS]),
-        'WheelConfig': adapter_subject('WheelConfig', cm[ct.WHEEL_CONFIG]),
-        'HardwareTickConfig': adapter_subject('HardwareTickConfig', cm[ct.HARDWARE_TICK_CONFIG]),
-        'IonosphereConfig': adapter_subject('IonosphereConfig', cm[ct.IONOSPHERE_CONFIG]),
-        'TroposphereConfig': adapter_subject('TroposphereConfig', cm[ct.TROPOSPHERE_CONFIG]),
-        'LBandConfig': adapter_subject('LBandConfig', cm[ct.LBAND_PARAMETERS]),
+        'Timestamp': lambda: class_subject(ts.Timestamp, pack_kwargs={'return_buffer': True}),
+        'MessageHeader': lambda: class_subject(defs.MessageHeader),
+        'MeasurementDetails': lambda: class_subject(md.MeasurementDetails),
+        'SatelliteInfo': lambda: class_subject(sol.SatelliteInfo),
+        'DataVersion': lambda: adapter_subject('DataVersion', cfg._DataVersionConstruct, lambda: cfg.DataVersion(1, 2)),
+        'InterfaceID': lambda: adapter_subject('InterfaceID', cfg._InterfaceIDConstruct),
+        'InterfaceConfigSubmessage': lambda: adapter_subject('InterfaceConfigSubmessage', cfg._InterfaceConfigSubmessageConstruct),
+        'MessageRateResponseEntry': lambda: adapter_subject('RateResponseEntry', cfg._RateResponseEntryConstruct),
+        'Point3f': lambda: adapter_subject('DeviceLeverArmConfig (Point3F)', cm('DEVICE_LEVER_ARM')),
+        'CoarseOrientation': lambda: adapter_subject('DeviceCourseOrientationConfig', cm('DEVICE_COARSE_ORIENTATION')),
+        'VehicleDetails': lambda: adapter_subject('VehicleDetailsConfig', cm('VEHICLE_DETAILS')),
+        'WheelConfig': lambda: adapter_subject('WheelConfig', cm('WHEEL_CONFIG')),
+        'HardwareTickConfig': lambda: adapter_subject('HardwareTickConfig', cm('HARDWARE_TICK_CONFIG')),
+        'IonosphereConfig': lambda: adapter_subject('IonosphereConfig', cm('IONOSPHERE_CONFIG')),
+        'TroposphereConfig': lambda: adapter_subject('TroposphereConfig', cm('TROPOSPHERE_CONFIG')),
+        'LBandConfig': lambda: adapter_subject('LBandConfig', cm('LBAND_PARAMETERS')),
     }
 
 
@@ -581,7 +583,8 @@ def subject_for(s, _cache={}):
         if cls is None:
             return None
         return class_subject(cls, _cache['bases'].get(s['key']))
-    return _cache['sub'].get(s['key'])
+    thunk = _cache['sub'].get(s['key'])
+    return thunk() if thunk else None
 
 
 # ---------------------------------------------------------------------------------------------------------------
